@@ -5,10 +5,26 @@ V = os.path.dirname(os.path.dirname(os.path.abspath(__file__)))
 ALL = [f'C{i:02d}' for i in range(1, 20)]
 
 CLAIMED = {
+ 'C02': dict(
+   text="Lean 4: one structural theorem about the boss model (run_ok: every command a run sends, classified per side and per dry-run flag, for every scenario - any replies incl. errors and unexpected variants, any arrival order, any behaviours/answers, any moment a destination error becomes visible) gives: the source doer is only ever sent SetRoot / GetEntries / GetFileContent (C02_src_trace), never a mutating command; CreateRootAncestors goes to the destination only and never in a dry run. The same is discharged on the source text: every send_command site on the source handle (extracted on every run) sends one of the three read-only variants. Tie: exact trace equality model vs the real sync() on 2500 mixed scripted scenarios + whitelist oracle on the implementation's source trace; L4: the CLI on real trees whose destination holds symlinks into populated decoy directories, snapshot of source + decoys before/after. Known finding C02-F7a (writes through a kept destination symlink after a skipped incompatible deletion) is reproduced on every run and reported as KNOWN-FINDING.",
+   note="Trusted: Lean kernel; the boss model's tie is differential; the doer-side half (paths are root.join(relative); read-only commands change nothing) is exercised by L3/L4 snapshots here and in C12/C01, not proved; domain: source/destination not nested, no outside hard links.",
+   technique="Lean 4 proof (structural case analysis of the boss model + loop invariants) + site extraction + L2 trace correspondence + L4 decoy snapshots", design="§3 C02"),
+ 'C03': dict(
+   text="Lean 4: a run that ends because a behaviour resolved to error or a prompt was cancelled / could not be shown has sent the destination nothing that deletes or overwrites (C03_error_untouched, for every scenario, via run_before); the execution phase shows no prompt and changes no remembered answer (decisions precede the first change); per category: skip takes the entry off the list silently, delete/overwrite proceeds silently, error and cancel stop the pass at the first applicable entry; an 'all occurrences' answer changes only its own category's behaviour; the root gate (skip => Ok with nothing sent, error/cancel => error, no 'all' items). Tie: exact trace + prompt sequence equality against the real sync() over behaviour assignments from the 4^5 product (all 1024 in thorough) x answer scripts x tree pairs incl. root conflicts; independent oracles: consent error => no destructive command; no delete/overwrite under an error/skip behaviour.",
+   note="Trusted: Lean kernel; dialoguer and an attended terminal are not exercised (answers come through the test-answer hook; the exhausted script is the unattended terminal); the L2 tie is differential.",
+   technique="Lean 4 proof (structural case analysis + induction over the action lists) + L2 trace/prompt correspondence", design="§3 C03"),
+ 'C05': dict(
+   text="Lean 4: with dry_run the source is sent only SetRoot/GetEntries (no GetFileContent) and the destination no mutating command, for every scenario (corollary of run_ok); on the source text every mutating destination site and the GetFileContent site sit inside an `if !ctx.dry_run` block (extracted on every run, all 8 kinds present); prediction: the dry run prints one 'Would delete' line per planned deletion in the order of the real run's delete commands with equal statistics, and counts every successfully copied entry exactly as the real run does (files once per file). Tie: paired runs of the real sync() with and without dry_run on 800 scenarios: 'Would ...' lines and summary counts = the real run's commands; L4: CLI dry runs on real trees (missing ancestors included) leave the snapshot unchanged.",
+   note="Trusted: Lean kernel; the whole-run prediction statement is carried by the paired L2 runs (theorems are per loop / per entry); differential tie.",
+   technique="Lean 4 proof (corollary of the trace theorem, loop inductions) + site-guard extraction + paired L2 runs + L4 snapshots", design="§3 C05"),
  'C06': dict(
    text="Lean 4 theorems over a regex AST with an executable position-set matcher: for every regex and every string an unanchored search for ^(?:p)$ succeeds iff p matches the whole string (C06_anchoring is stated for the wrap *extracted from compile_filters on this run*, so it stops checking if the wrap changes); apply_filters = root exempt, last matching filter decides, default = opposite of the first sign. Tie: the real compile_filters + apply_filters vs the model on grammar-generated (filter list, path) pairs, plus an independent whole-path oracle (\\A(?:p)\\z through the regex crate) that also judges out-of-subset syntax. 'Hidden entries are never read' and 'same verdict on both sides' are carried by the walker/boss models (C17, C02).",
    note="Trusted: Lean kernel; the regex crate's semantics (also the oracle's engine); the AST-level model of text concatenation precedence (validated by the differential stream); extraction of the wrap strings.",
    technique="Lean 4 proof (matcher lemmas, fold lemma) over extracted wrap + L1 differential with independent oracle", design="§3 C06"),
+ 'C07': dict(
+   text="Lean 4: for every scenario and every poll index at which a destination Error response first becomes visible (incl. 'after the last poll' = the final blocking wait) the run does not end ok unless it sent nothing that could fail (C07_failure_reported, via run_before); the execution phase with a visible error never ends ok; a failing/unexpected/absent source reply fails the copy of that file (with C11: success => terminated stream totalling the listed size); deletion counters = delete commands sent; 'Nothing to do!' exactly when all six counters are zero. Tie: the real sync() with an error reply injected at every mutating command index of 60 plans (model asked for every poll index; oracle: never ok), summary numbers = commands sent, relay oracle; L4 real faults (ENOTEMPTY via a hidden entry, EACCES on a source folder and on the destination as uid 65534): status 12 + error message.",
+   note="Trusted: Lean kernel; 'every I/O error the OS can produce' is bounded by the kinds provoked; that the doer turns each failure into an Error response is validated (L3/L4), not proved; the clause 'after a failed run every path is as it was / as planned / partly written without the source mtime' is C08's.",
+   technique="Lean 4 proof (structural case analysis over outcomes, loop inductions) + L2 fault enumeration + L4 real faults", design="§3 C07"),
  'C10': dict(
    text="Lean 4 theorems with the AEAD as a parameter with laws (correctness, ciphertext integrity, nonce binding; a toy instance shows satisfiability): for every sent history, key and adversarial delivery sequence whose openable frames were made by the two honest ends, the receiving application is handed a prefix of what the other end sent (exactly once, in order); nothing is delivered after the first bad frame; a peer without the key gets nothing delivered; nonces determine (direction, index). C10_nonce_config pins the nonce step (the increment must be *stored*) and the four parities to what is extracted from the source on this run. Tie: two real AsyncEncryptedComms ends over loopback TCP with the harness as the network applying generated and systematic manipulation scripts (delivered indices = model = independent prefix oracle; key-stream reuse detected from the wire), and a real --doer process contacted with wrong-key frames / raw bytes (tree unchanged, process exits).",
    note="Trusted: Lean kernel; AES-128-GCM as an ideal AEAD (computational assumption, not provable here); OsRng; TCP in-order delivery; extraction of nonce step/parities.",
